@@ -101,3 +101,41 @@ Proof.
   destruct (ro_events (reg_update (frame_time f) (f_raw f) (update_state (f_raw f)) (w_reg w))); [|discriminate].
   destruct (run_ops sc _ (f_ops f)); [|discriminate]. inversion H; subst. cbn [fo_log]. repeat split.
 Qed.
+
+(* ---- the frame-level statement: at any point of a frame's evaluation the consumed set is the fresh one
+   of the frame plus the inputs consumed so far (each under the device of the context that consumed it),
+   and a read is exactly the raw read unless something related to it has been consumed ---- *)
+Definition consume_list (h : list (device * input)) (c : consumed) : consumed :=
+  fold_left (fun acc di => consume acc (fst di) (snd di)) h c.
+Definition hidden (h : list (device * input)) (dev : device) (j : input) : bool :=
+  existsb (fun di => related (fst di) dev (snd di) j) h.
+
+Lemma read_after_consumes r : forall h c dev j,
+  reader_value r (consume_list h c) dev j = if hidden h dev j then zero_of j else reader_value r c dev j.
+Proof.
+  induction h as [|[d i] rest IH] using rev_ind; intros c dev j.
+  - reflexivity.
+  - unfold consume_list, hidden in *. rewrite fold_left_app, existsb_app. cbn [fold_left existsb fst snd].
+    rewrite orb_false_r. destruct (related d dev i j) eqn:R.
+    + rewrite orb_true_r. apply consume_hides. exact R.
+    + rewrite orb_false_r, consume_frame by exact R. apply IH.
+Qed.
+
+Lemma read_in_frame r h dev j :
+  reader_value r (consume_list h (update_state r)) dev j =
+  if hidden h dev j then zero_of j else spec_read r (ui_any r) dev j.
+Proof. rewrite read_after_consumes, read_fresh. reflexivity. Qed.
+
+(* the consumed set after an action is the one before it plus (possibly) a sub-list of its own inputs *)
+Lemma action_consumed_list m tm r h dev recips ab :
+  exists buf, incl buf (map ib_input (ab_inputs ab)) /\
+    o_consumed (action_update m tm r (consume_list h (update_state r)) dev recips ab) =
+    consume_list (h ++ map (fun i => (dev, i)) buf) (update_state r).
+Proof.
+  destruct (action_update_consumed m tm r (consume_list h (update_state r)) dev recips ab) as (buf & Hb & E).
+  destruct (aid_consume (ab_id ab) && negb (state_eqb _ SNone)) eqn:C.
+  - exists buf. split; [exact Hb|]. rewrite E. unfold consume_list. rewrite fold_left_app.
+    generalize (fold_left (fun acc di => consume acc (fst di) (snd di)) h (update_state r)). clear.
+    induction buf as [|i rest IH]; intros c; [reflexivity|]. cbn [map fold_left fst snd]. apply IH.
+  - exists []. split; [intros x Hx; destruct Hx|]. rewrite E, app_nil_r. reflexivity.
+Qed.
